@@ -82,6 +82,13 @@ type FuncContract struct {
 	Propagates []Propagate
 }
 
+// ReentryDecl: Funcs[0] must not be called from code that Funcs[0] or one of the other listed functions can
+// reach (the call would nest another activation with no measure bounding the depth).
+type ReentryDecl struct {
+	Funcs []string
+	Props []string
+}
+
 // Propagate: a failure reported by a call to one of Callees (name or name#k; "*" = every call whose
 // last result is an error) makes this function report a failure too: it returns a non-nil last result
 // before it makes another iteration of an enclosing loop. Names prefixed with "!" are exempt.
@@ -141,6 +148,7 @@ type Contracts struct {
 	Ghosts   map[string]*GhostVar
 	GhostOrder []string
 	LastArg  map[string]bool // callees some clause names in lastarg("callee", i)
+	Reentry  []ReentryDecl // functions that must not be re-entered while they run (unbounded recursion through a loader)
 	IgnorableErr map[string]bool // callees whose error result may be dropped (writes to the output and to in-memory buffers)
 	NonNil   map[string][]string // heap key (E|..., MV|..., B|*T) -> props: pointers stored there are never nil
 	Regions  map[string]string // type name -> region
@@ -460,6 +468,15 @@ func ParseContractsFile(path string) (*Contracts, error) {
 			for _, k := range strings.Fields(r) {
 				cs.NonNil[k] = props
 			}
+			cur, curType = nil, nil
+		case "reentry":
+			// reentry {props} F [G...]: no call of F from code reachable from F or G
+			props, r := parseProps(rest)
+			fsx := strings.Fields(r)
+			if len(fsx) == 0 {
+				return nil, fail(fmt.Errorf("usage: reentry {props} F [G...]"))
+			}
+			cs.Reentry = append(cs.Reentry, ReentryDecl{Funcs: fsx, Props: props})
 			cur, curType = nil, nil
 		case "ignorable-errors":
 			// ignorable-errors callee... : "propagates *" does not cover calls to these
